@@ -4,6 +4,7 @@ import (
 	"fmt"
 	"go/ast"
 	"go/constant"
+	"go/token"
 	"go/types"
 	"os"
 	"path/filepath"
@@ -78,16 +79,7 @@ func runC11(c *engine.Ctx, tier string) {
 	// (4) transaction controller
 	c.Al = transactionAliases(c.P)
 	finalStatesEndWaits(c)
-	c.Outcome(engine.Outcome{ID: "C11.4", Pkg: pkgTransactionCtl, Root: "Reconciler.Reconcile", Min: 1,
-		When: "@T.Status.Phases.Apply != nil && @T.Status.Phases.Apply.State == config/v2.TransactionApplyPhase_APPLYING && err(@PE) == nil && @PE.Status.Phases.Apply != nil && @PE.Status.Phases.Apply.State == config/v2.ProposalApplyPhase_FAILED",
-		Must: []engine.Sel{
-			{Field: "config/v2.TransactionStatus.State", RHS: "config/v2.TransactionStatus_FAILED"},
-			{Field: "config/v2.TransactionStatus.Failure", RHS: "@PE.Status.Phases.Apply.Failure"},
-			{Field: "config/v2.TransactionApplyPhase.State", RHS: "config/v2.TransactionApplyPhase_FAILED"},
-			{Call: stTxUpdStat},
-		},
-		MustNot: []engine.Sel{{Call: stPropUpdStat}, {Field: "config/v2.TransactionPhases.Abort"}},
-		Why:     "one target's refusal fails the transaction with that target's failure class; the other targets' proposals are left as they are (no abort after commit)"})
+	applyFailureOutcome(c)
 }
 
 func codesDomain(c *engine.Ctx) (map[string]constant.Value, types.Type) {
@@ -571,6 +563,119 @@ func finalStatesEndWaits(c *engine.Ctx) {
 			reported[pos] = true
 			o.Fail(&engine.Violation{Key: engine.FuncChainNoPos(p, lastCond) + "|wait taken for a FAILED predecessor", Pos: pos, Func: engine.FuncChain(p, lastCond),
 				Msg: "the pass returns without doing anything after testing " + c.Render(lc.Lit.String()) + ", and that test holds for a predecessor in state FAILED: a refused serializable transaction blocks every later transaction on the target"})
+		}
+	}
+}
+
+// applyFailureOutcome: C11.4. One target's refusal fails the transaction — after every other target of the
+// transaction has been given its apply phase, with the refusing target's failure, and without touching the
+// other proposals.
+func applyFailureOutcome(c *engine.Ctx) {
+	o := c.Custom("C11.4", "K-outcome(apply failure)", "in the transaction controller, Apply.State := FAILED is written only (a) after the loop over the transaction's proposals has been left — every proposal met in it had its apply phase started, a proposal without one makes the pass start it and return — (b) on a path that saw some proposal's Apply.State == FAILED, (c) together with Status.State := FAILED, Status.Failure and Apply.Failure := that proposal's failure and a transactions.UpdateStatus, and (d) without any proposal write or Abort phase",
+		"a device refusing a change fails that change only: the transaction is failed with that target's failure class, the other targets still get their (committed) change applied — a FAILED transaction is not reconciled again, so nothing would start their apply phase later")
+	defer o.Done(1)
+	paths, err := c.A.Paths(pkgTransactionCtl)
+	if err != nil {
+		o.Undecided(pkgTransactionCtl, err.Error())
+		return
+	}
+	pe := c.Al.Expand("@PE")
+	// the flag that guards the write after the loop: set true only under `case ProposalApplyPhase_FAILED`
+	// (a path on which the abstract loop ran zero times carries a havocked flag and no condition)
+	flagOK := false
+	for _, fi := range c.P.FuncsOf(c.P.Pkg(pkgTransactionCtl)) {
+		if !strings.HasSuffix(fi.Name(), "Reconciler.reconcileApply") || fi.Decl == nil {
+			continue
+		}
+		sets, good := 0, 0
+		var clauses []*ast.CaseClause
+		ast.Inspect(fi.Decl.Body, func(n ast.Node) bool {
+			if cc, ok := n.(*ast.CaseClause); ok {
+				for _, e := range cc.List {
+					if strings.HasSuffix(types.ExprString(e), "ProposalApplyPhase_FAILED") {
+						clauses = append(clauses, cc)
+					}
+				}
+			}
+			return true
+		})
+		ast.Inspect(fi.Decl.Body, func(n ast.Node) bool {
+			as, ok := n.(*ast.AssignStmt)
+			if !ok || len(as.Lhs) != 1 || len(as.Rhs) != 1 {
+				return true
+			}
+			if id, ok := as.Lhs[0].(*ast.Ident); !ok || id.Name != "failed" {
+				return true
+			}
+			if types.ExprString(as.Rhs[0]) == "false" && as.Tok == token.DEFINE {
+				return true
+			}
+			sets++
+			for _, cc := range clauses {
+				if as.Pos() > cc.Pos() && as.End() <= cc.End() && types.ExprString(as.Rhs[0]) == "true" {
+					good++
+				}
+			}
+			return true
+		})
+		flagOK = sets > 0 && sets == good
+	}
+	reported := map[string]bool{}
+	fail := func(p *engine.Path, i int, key, msg string) {
+		if !reported[key] {
+			reported[key] = true
+			o.Fail(&engine.Violation{Key: "reconcileApply|" + key, Pos: c.P.Pos(p.Events[i].Pos), Func: engine.FuncChain(p, i), Msg: msg})
+		}
+	}
+	for _, p := range paths {
+		if !strings.HasSuffix(p.Root.Name(), "Reconciler.Reconcile") {
+			continue
+		}
+		w := -1
+		for i := range p.Events {
+			if e := &p.Events[i]; e.Kind == engine.EvWrite && e.Field == "config/v2.TransactionApplyPhase.State" && e.RHS == "config/v2.TransactionApplyPhase_FAILED" {
+				w = i
+			}
+		}
+		if w < 0 {
+			continue
+		}
+		o.Site(c.P.Pos(p.Events[w].Pos))
+		o.Eval(1)
+		if p.Events[w].Loops != "" {
+			fail(p, w, "failed inside the proposal loop", "the transaction's apply phase is failed inside the loop over its proposals: the proposals behind the refusing one never get their apply phase started (a FAILED transaction is not reconciled again), their committed changes are never sent and their targets wedge")
+			continue
+		}
+		sawFailed, txState, txFailure, phFailure, upd := false, false, "", "", false
+		for i := range p.Events {
+			e := &p.Events[i]
+			switch {
+			case e.Kind == engine.EvCond && e.Lit.L == pe+".Status.Phases.Apply.State" && e.Lit.R == "config/v2.ProposalApplyPhase_FAILED" && e.Lit.Mask == 2:
+				sawFailed = true
+			case e.Kind == engine.EvWrite && e.Field == "config/v2.TransactionStatus.State" && e.RHS == "config/v2.TransactionStatus_FAILED":
+				txState = true
+			case e.Kind == engine.EvWrite && e.Field == "config/v2.TransactionStatus.Failure":
+				txFailure = e.RHS
+			case e.Kind == engine.EvWrite && e.Field == "config/v2.TransactionApplyPhase.Failure":
+				phFailure = e.RHS
+			case e.Kind == engine.EvCall && e.CalleeName == stTxUpdStat && i > w:
+				upd = true
+			case e.Kind == engine.EvCall && e.CalleeName == stPropUpdStat:
+				fail(p, i, "proposal written", "a pass that fails the transaction at apply also writes a proposal")
+			case e.Kind == engine.EvWrite && e.Field == "config/v2.TransactionPhases.Abort":
+				fail(p, i, "abort after commit", "a transaction failed at apply is sent to Abort: the committed changes of the other targets would be undone")
+			}
+		}
+		fromProposal := func(s string) bool {
+			return s == pe+".Status.Phases.Apply.Failure" || strings.HasPrefix(s, "?failure@")
+		}
+		switch {
+		case !sawFailed && !flagOK:
+			fail(p, w, "no refusal seen", "the transaction's apply phase is failed on a path that saw no proposal with Apply.State == FAILED")
+		case !txState || !upd:
+			fail(p, w, "not recorded", "the failure is not recorded in Status.State and persisted with transactions.UpdateStatus")
+		case !fromProposal(txFailure) || !fromProposal(phFailure) || txFailure != phFailure:
+			fail(p, w, "failure class", "Status.Failure ("+c.Render(txFailure)+") / Apply.Failure ("+c.Render(phFailure)+") are not the refusing proposal's failure")
 		}
 	}
 }
